@@ -1,4 +1,194 @@
-import NriModel.Basic
-/-! Property theorems for C19 — placeholder until the model is written. -/
+import NriModel.Lemmas.LocksMutex
+/-!
+Property C19 — unsolicited updates reach the runtime once, unchanged, and never concurrently.
+
+Model: `Nri.Mutex` (`NriModel/Locks.lean`): (i) the wrapper chain of one unsolicited update —
+`stub.UpdateContainers` (stub.go) → ttRPC → `plugin.UpdateContainers` (plugin.go) →
+`Adaptation.updateContainers` (adaptation.go) → the runtime's `UpdateFn` — as total functions
+over an arbitrary update type `α` and error type `ε`; (ii) the adaptation mutex as a labelled
+transition system in which update calls of any number of plugins interleave with runtime
+requests. The history theorems quantify over ALL histories `run init h = some s`; the ghost
+logs `fnRuns u` / `rets u` record every `UpdateFn` invocation made for, and every value
+returned to, call `u`.
+-/
 namespace Nri.Props.C19
+open Nri.Mutex
+
+variable {α ε : Type}
+
+/-- **Pass-through (function level).** Through a started stub connected to an adaptation whose
+    callback is `fn`, the callback is applied to exactly the list the plugin sent, and the plugin
+    receives the callback's failed list when the callback succeeded … -/
+theorem C19_passthrough_ok (fn : List α → FnResult α ε) (update : List α)
+    (h : (fn update).err = none) :
+    stubUpdate (some (connected fn)) update = ((fn update).failed, none) := by
+  simp [stubUpdate, connected, transport, serviceUpdate, adaptationUpdate, h]
+
+/-- … and the callback's error, and no failed list, when it failed. -/
+theorem C19_passthrough_err (fn : List α → FnResult α ε) (update : List α) (e : ε)
+    (h : (fn update).err = some e) :
+    stubUpdate (some (connected fn)) update = ([], some (.rpc e)) := by
+  simp [stubUpdate, connected, transport, serviceUpdate, adaptationUpdate, h]
+
+/-- Both cases at once: the wrapper chain computes `expected`, the value the transition system
+    demands of every `ret` event. -/
+theorem C19_passthrough_fn (fn : List α → FnResult α ε) (update : List α) :
+    stubUpdate (some (connected fn)) update = expected (fn update) := by
+  cases h : (fn update).err with
+  | none => rw [C19_passthrough_ok fn update h]; simp [expected, h]
+  | some e => rw [C19_passthrough_err fn update e h]; simp [expected, h]
+
+/-- **No service.** A stub that was never started answers at once with `ErrNoService` … -/
+theorem C19_noservice (update : List α) :
+    stubUpdate (none : Option (List α → Option (List α) × Option ε)) update =
+      ([], some .noService) := rfl
+
+variable [DecidableEq α] [DecidableEq ε]
+
+/-- … in every state (whoever holds the adaptation mutex: it does not block), without touching
+    the runtime; and no other answer is accepted. -/
+theorem C19_noservice_never_blocks (s : State α ε) (p : Pid) (update : List α) :
+    step? s (.callUnstarted p update ([], some .noService)) = some s ∧
+    ∀ out, out ≠ ([], some .noService) → step? s (.callUnstarted p update out) = none := by
+  constructor
+  · simp [step?, stubUpdate]
+  · intro out ho; simp [step?, stubUpdate, ho]
+
+/-- **Pass-through (history level).** In every accepted history, whatever `UpdateFn` was invoked
+    with on behalf of call `u` is exactly the list plugin `p` passed to its stub … -/
+theorem C19_passthrough_arg {h : List (Ev α ε)} {s : State α ε} (hr : run init h = some s)
+    (u : Uid) (arg : List α) (res : FnResult α ε) (hm : (arg, res) ∈ s.fnRuns u) :
+    ∃ p ph, s.call u = some ⟨p, arg, ph⟩ := by
+  have g := (goodM_run hr).calls u
+  unfold callOk at g
+  split at g <;> simp_all
+
+/-- … and whatever was returned to the plugin for call `u` is the result of that one invocation:
+    its failed list unchanged if it succeeded, its error (and nothing else) if it failed. -/
+theorem C19_passthrough_result {h : List (Ev α ε)} {s : State α ε} (hr : run init h = some s)
+    (u : Uid) (out : List α × Option (StubErr ε)) (hm : out ∈ s.rets u) :
+    ∃ p update r, s.call u = some ⟨p, update, .returned r⟩ ∧ s.fnRuns u = [(update, r)] ∧
+      (r.err = none → out = (r.failed, none)) ∧ (∀ e, r.err = some e → out = ([], some (.rpc e))) := by
+  have g := (goodM_run hr).calls u
+  unfold callOk at g
+  split at g
+  all_goals (try (simp_all; done))
+  rename_i p L r hc
+  refine ⟨p, L, r, hc, g.1, ?_, ?_⟩
+  · intro he; rw [g.2] at hm; simp only [List.mem_singleton] at hm; simp [hm, expected, he]
+  · intro e he; rw [g.2] at hm; simp only [List.mem_singleton] at hm; simp [hm, expected, he]
+
+/-- **Once.** `UpdateFn` runs at most once per call in every accepted history, exactly once for
+    a call that has returned, and a call returns at most once. -/
+theorem C19_once {h : List (Ev α ε)} {s : State α ε} (hr : run init h = some s) (u : Uid) :
+    (s.fnRuns u).length ≤ 1 ∧ (s.rets u).length ≤ 1 ∧
+    (s.rets u ≠ [] → (s.fnRuns u).length = 1) := by
+  have g := (goodM_run hr).calls u
+  unfold callOk at g
+  split at g <;> simp_all
+
+/-- a call that was never made leaves no trace at the runtime (no spurious invocations) -/
+theorem C19_no_spurious {h : List (Ev α ε)} {s : State α ε} (hr : run init h = some s) (u : Uid)
+    (hn : s.call u = none) : s.fnRuns u = [] ∧ s.rets u = [] := by
+  have g := (goodM_run hr).calls u
+  unfold callOk at g
+  rw [hn] at g
+  exact g
+
+/-- **Exclusive (state form).** In every reachable state at most one of {a runtime request being
+    processed, an `UpdateFn` invocation} is inside its section. `inside` is maintained by the
+    begin/end events independently of the mutex word. -/
+theorem C19_exclusive {h : List (Ev α ε)} {s : State α ε} (hr : run init h = some s) :
+    s.inside.length ≤ 1 := by
+  rw [(goodM_run hr).insideMu]
+  cases s.mu <;> simp
+
+/-- `UpdateFn` runs only while its own call is the one inside, a handler only while its own
+    request is. -/
+theorem C19_exclusive_fn {h : List (Ev α ε)} {s s' : State α ε} (hr : run init h = some s)
+    (u : Uid) (arg : List α) (res : FnResult α ε) (he : step? s (.fn u arg res) = some s') :
+    s.inside = [.upd u] := by
+  rw [(goodM_run hr).insideMu]
+  simp only [step?] at he
+  split at he
+  · split at he
+    · rename_i hg; simp [hg.1]
+    · cases he
+  · cases he
+
+theorem C19_exclusive_handler {h : List (Ev α ε)} {s s' : State α ε} (hr : run init h = some s)
+    (r : Rid) (p : Pid) (he : step? s (.handler r p) = some s') :
+    s.inside = [.req r] := by
+  rw [(goodM_run hr).insideMu]
+  simp only [step?] at he
+  split at he
+  · rename_i hg; simp [hg]
+  · cases he
+
+/-- **Exclusive (interval form).** Split an accepted history at the moment call `u` acquired the
+    mutex: until `u` releases it, the history contains no event of any request's processing
+    and no `enter`/`fn`/`leave` of another update. -/
+theorem C19_exclusive_interval {pre m : List (Ev α ε)} {u : Uid} {s : State α ε}
+    (hr : run init (pre ++ [.enter u] ++ m) = some s) (hnl : ∀ e ∈ m, releases (.upd u) e = false) :
+    ∀ e ∈ m, foreignTo (.upd u) e = false := by
+  rw [List.append_assoc, run_append] at hr
+  cases h1 : run init pre with
+  | none => simp [h1] at hr
+  | some s1 =>
+    simp only [h1, Option.bind_some, List.singleton_append, run] at hr
+    split at hr
+    · rename_i s2 hs2
+      have hmu : s2.mu = some (.upd u) := by
+        simp only [step?] at hs2
+        split at hs2
+        · injection hs2 with hs2; subst hs2; rfl
+        · cases hs2
+      exact (interval_exclusive hmu hr hnl).1
+    · cases hr
+
+/-- the same for a runtime request -/
+theorem C19_exclusive_interval_req {pre m : List (Ev α ε)} {r : Rid} {s : State α ε}
+    (hr : run init (pre ++ [.reqBegin r] ++ m) = some s) (hnl : ∀ e ∈ m, releases (.req r) e = false) :
+    ∀ e ∈ m, foreignTo (.req r) e = false := by
+  rw [List.append_assoc, run_append] at hr
+  cases h1 : run init pre with
+  | none => simp [h1] at hr
+  | some s1 =>
+    simp only [h1, Option.bind_some, List.singleton_append, run] at hr
+    split at hr
+    · rename_i s2 hs2
+      have hmu : s2.mu = some (.req r) := by
+        simp only [step?] at hs2
+        split at hs2
+        · injection hs2 with hs2; subst hs2; rfl
+        · cases hs2
+      exact (interval_exclusive hmu hr hnl).1
+    · cases hr
+
+/-! ### non-vacuity -/
+
+/-- two plugins' updates and a request interleave (as far as the mutex allows); call 0 fails
+    with error 7, call 1 succeeds with failed list `[20]` -/
+def demo : List (Ev Nat Nat) :=
+  [.call 0 1 [10, 11], .call 1 2 [20, 21], .reqBegin 5, .handler 5 1, .handler 5 2, .reqEnd 5,
+   .enter 1, .fn 1 [20, 21] ⟨[20], none⟩, .leave 1,
+   .enter 0, .ret 1 ([20], none), .fn 0 [10, 11] ⟨[10], some 7⟩, .leave 0,
+   .ret 0 ([], some (.rpc 7)), .callUnstarted 3 [1] ([], some .noService)]
+
+example : ∃ s, run init demo = some s ∧ s.rets 0 = [([], some (.rpc 7))] ∧
+    s.rets 1 = [([20], none)] ∧ s.fnRuns 0 = [([10, 11], ⟨[10], some 7⟩)] ∧ s.inside = [] :=
+  ⟨_, rfl, by decide, by decide, by decide, by decide⟩
+
+/-- the model refuses: a second owner while the mutex is held; an altered argument; an altered
+    result; a second invocation; a blocked or wrong answer from an unstarted stub -/
+example : run init ([.call 0 1 [10], .reqBegin 5, .enter 0] : List (Ev Nat Nat)) = none := by decide
+example : run init ([.call 0 1 [10], .enter 0, .reqBegin 5] : List (Ev Nat Nat)) = none := by decide
+example : run init ([.call 0 1 [10], .enter 0, .fn 0 [11] ⟨[], none⟩] : List (Ev Nat Nat)) = none := by
+  decide
+example : run init ([.call 0 1 [10], .enter 0, .fn 0 [10] ⟨[10], none⟩, .leave 0,
+    .ret 0 ([], none)] : List (Ev Nat Nat)) = none := by decide
+example : run init ([.call 0 1 [10], .enter 0, .fn 0 [10] ⟨[], none⟩, .fn 0 [10] ⟨[], none⟩] :
+    List (Ev Nat Nat)) = none := by decide
+example : run init ([.callUnstarted 3 [1] ([], none)] : List (Ev Nat Nat)) = none := by decide
+
 end Nri.Props.C19
